@@ -145,7 +145,9 @@ def main(argv):
         cmd = ["cargo", "run", "--offline", "--quiet", "--bin", "replay", "--target-dir",
                os.path.join(K.WORK, "target-replay")] + (["--release"] if rel else [])
         if not os.path.exists(os.path.join(path, "src", "replay.rs")):
-            cmd = ["cargo", "check", "--offline", "--target-dir", os.path.join(K.WORK, "target-replay")]
+            # a declaration the real macro / rustc rejects: `build`, not `check` (const-eval
+            # errors of the derive's tables only appear at code generation)
+            cmd = ["cargo", "build", "--offline", "--lib", "--target-dir", os.path.join(K.WORK, "target-replay")]
         return subprocess.call(cmd, cwd=path)
     pid = argv[0]
     tier = os.environ.get("VERIF_TIER", "quick")
